@@ -181,3 +181,74 @@ Proof.
   - intros i _. apply ki_succ_nth.
 Qed.
 End Iter.
+
+(* ---------- rows of points (volumes): the row algorithm is fibre-wise the point algorithm ---------- *)
+Section Rows.
+Context {T : Type} (K : ops T).
+Variables (p : nat) (U : list T) (C : list (list (list T))) (u : T) (num s k m idx : nat).
+Hypothesis Hsp : s <= p.
+Hypothesis Hpk : p <= k.
+Hypothesis Hk : k < length C.
+Hypothesis Hnum : num <= p - s.
+Hypothesis Hrows : forall i, i < length C -> length (nth i C []) = m.
+Hypothesis Hidx : idx < m.
+
+Definition fibre : list (list T) := map (fun row => nth idx row []) C.
+
+Lemma nth_nil_nil {B} (i : nat) : nth i (@nil (list B)) [] = [].
+Proof. destruct i; reflexivity. Qed.
+
+Lemma fibre_nth i : getp fibre i = nth idx (nth i C []) [].
+Proof.
+  unfold getp, fibre.
+  rewrite <- (nth_nil_nil (B:=T) idx) at 1.
+  apply (map_nth (fun row => nth idx row []) C [] i).
+Qed.
+
+Lemma lerp_row_nth alpha (a b : list (list T)) : idx < length a -> idx < length b ->
+  nth idx (lerp_row K alpha a b) [] = lerp K alpha (nth idx a []) (nth idx b []).
+Proof.
+  intros Ha Hb. unfold lerp_row.
+  set (f := fun ab : list T * list T => lerp K alpha (fst ab) (snd ab)).
+  rewrite (nth_indep _ [] (f ([], []))) by (rewrite map_length, combine_length; lia).
+  rewrite (map_nth f). rewrite combine_nth_lt by lia. reflexivity.
+Qed.
+Lemma lerp_row_length alpha (a b : list (list T)) : length (lerp_row K alpha a b) = Nat.min (length a) (length b).
+Proof. unfold lerp_row. rewrite map_length, combine_length. reflexivity. Qed.
+
+Notation RtR := (Rtri K (lerp_row K) [] p U C u k).
+Notation RtP := (Rtri K (lerp K) [] p U fibre u k).
+
+Lemma RtR_length : forall j i, j <= i -> i < length C -> length (RtR j i) = m.
+Proof.
+  induction j as [|j IH]; intros i Hj Hi; cbn [Rtri].
+  - apply Hrows. exact Hi.
+  - rewrite lerp_row_length, !IH by lia. apply Nat.min_id.
+Qed.
+
+Lemma Rtri_fibre : forall j i, j <= i -> i < length C -> nth idx (RtR j i) [] = RtP j i.
+Proof.
+  induction j as [|j IH]; intros i Hj Hi; cbn [Rtri].
+  - unfold getA. symmetry. apply fibre_nth.
+  - rewrite lerp_row_nth by (rewrite RtR_length by lia; exact Hidx).
+    rewrite !IH by lia. reflexivity.
+Qed.
+
+Theorem rows_fibre i : i < length C + num ->
+  nth idx (getA [] (knot_insertion_rows K p U C u num s k) i) [] = getp (knot_insertion K p U fibre u num s k) i.
+Proof.
+  intros Hi. unfold knot_insertion_rows.
+  rewrite knot_insertion_g_closed by auto.
+  change (getp (knot_insertion K p U fibre u num s k) i) with (getA [] (knot_insertion_g K (lerp K) [] p U fibre u num s k) i).
+  assert (HlF : length fibre = length C) by (unfold fibre; apply map_length).
+  rewrite knot_insertion_g_closed by (rewrite ?HlF; auto).
+  unfold ki_closed.
+  bdestr; try (unfold getA; symmetry; apply fibre_nth); apply Rtri_fibre; lia.
+Qed.
+
+Theorem rows_length i : i < length C + num -> length (getA [] (knot_insertion_rows K p U C u num s k) i) = m.
+Proof.
+  intros Hi. unfold knot_insertion_rows. rewrite knot_insertion_g_closed by auto. unfold ki_closed.
+  bdestr; try (apply Hrows; lia); apply RtR_length; lia.
+Qed.
+End Rows.
